@@ -940,6 +940,71 @@ func interpreterTables() {
 		emit("(%s, (%s)%%Z)", coqStr(r.ty), a)
 	}
 	emit("].\n")
+	// the body of every built-in's Call, as the sequence in source order of: error returns (ERR + start of the message),
+	// library calls (math.*, strings.*, sort.*, time.*, fmt.Print*, bufio/os readers), append/copy/make/delete/len on the
+	// argument data, loops, and comparisons against len(arguments).  Eval.call_native transcribes exactly this.
+	nativeTrace := func(body *ast.BlockStmt) []string {
+		var tr []string
+		ast.Inspect(body, func(n ast.Node) bool {
+			switch x := n.(type) {
+			case *ast.ForStmt, *ast.RangeStmt:
+				tr = append(tr, "LOOP")
+			case *ast.BinaryExpr:
+				l, r := exprStr(x.X), exprStr(x.Y)
+				if l == "len()" && (x.Op == token.EQL || x.Op == token.NEQ || x.Op == token.LSS || x.Op == token.GTR || x.Op == token.LEQ || x.Op == token.GEQ) {
+					if c, ok := x.X.(*ast.CallExpr); ok && len(c.Args) == 1 {
+						tr = append(tr, "LEN("+exprStr(c.Args[0])+")"+x.Op.String()+r)
+					}
+				}
+				if (x.Op == token.LSS || x.Op == token.GEQ || x.Op == token.GTR || x.Op == token.LEQ) && l != "len()" {
+					tr = append(tr, "CMP:"+l+x.Op.String()+r)
+				}
+			case *ast.CallExpr:
+				fn := exprStr(x.Fun)
+				switch {
+				case fn == "fmt.Errorf" || fn == "errors.New":
+					msg := ""
+					if len(x.Args) > 0 {
+						if b, ok := x.Args[0].(*ast.BasicLit); ok {
+							msg, _ = strconv.Unquote(b.Value)
+						}
+					}
+					if len(msg) > 28 {
+						msg = msg[:28]
+					}
+					tr = append(tr, "ERR:"+msg)
+				case strings.HasPrefix(fn, "math.") || strings.HasPrefix(fn, "strings.") || strings.HasPrefix(fn, "sort.") || strings.HasPrefix(fn, "time.") ||
+					strings.HasPrefix(fn, "fmt.Print") || strings.HasPrefix(fn, "bufio.") || strings.HasSuffix(fn, ".ReadString") || strings.HasPrefix(fn, "strconv.") || strings.HasPrefix(fn, "norm."):
+					tr = append(tr, "LIB:"+fn)
+				case fn == "append" || fn == "copy" || fn == "make" || fn == "delete":
+					a := ""
+					if len(x.Args) > 0 {
+						a = exprStr(x.Args[0])
+					}
+					tr = append(tr, "BUILTIN:"+fn+"("+a+")")
+				case fn == "toNumber" || fn == "toInt64" || fn == "isTruthy" || fn == "stringify" || fn == "isEqual":
+					tr = append(tr, "HELPER:"+fn)
+				}
+			}
+			return true
+		})
+		return tr
+	}
+	emit("Definition gen_native_trace : list (string * list string) := [\n")
+	for i, r := range regs {
+		var tr []string
+		for _, f := range files[1:6] {
+			if fd, ok := funcDecls(f)[r.ty+".Call"]; ok && fd.Body != nil {
+				tr = nativeTrace(fd.Body)
+			}
+		}
+		sep := ";"
+		if i == len(regs)-1 {
+			sep = ""
+		}
+		emit("  (%s, %s)%s\n", coqStr(r.ty), coqStrList(tr), sep)
+	}
+	emit("].\n")
 	emit("Definition gen_native_label : list (string * list N) := [")
 	for i, r := range regs {
 		if i > 0 {
